@@ -951,6 +951,30 @@ func (st *solveState) solve(at *ssa.BasicBlock, depth int) bool {
 	if entails(st.fs.ineqs, st.goal) {
 		return true
 	}
+	// a disequality  L != 0  contradicted by the facts (they entail L == 0): the state is infeasible whatever the
+	// goal - the edge of a phi taken under  t == K  while the path knows  t != K  (no CSE: two SSA values compare
+	// the same operands)
+	for _, nq := range st.fs.neqs {
+		l := st.substLin(nq)
+		if len(l.T) == 0 {
+			continue
+		}
+		mentioned := false
+		for _, q := range st.fs.ineqs {
+			for v := range l.T {
+				if _, ok := q.L.T[v]; ok {
+					mentioned = true
+				}
+			}
+		}
+		if !mentioned {
+			continue
+		}
+		e.nFM += 2
+		if fmUnsat(append(append([]Ineq{}, st.fs.ineqs...), Ineq{l.neg().addK(-1)})) && fmUnsat(append(append([]Ineq{}, st.fs.ineqs...), Ineq{l.addK(-1)})) {
+			return true
+		}
+	}
 	if depth <= 0 {
 		return false
 	}
